@@ -77,11 +77,13 @@ pub struct TestLogp {
     pub log_evals: bool,
     /// busy-wait this many microseconds per evaluation (chains of different speed)
     pub delay_us: u64,
+    /// announce an unrecoverable fault in the "sampler" event stream as chain `announce` (C13)
+    pub announce: Option<i64>,
 }
 
 impl TestLogp {
     pub fn new(kind: Kind, dim: usize) -> Self {
-        TestLogp { kind, dim, evals: 0, faults: HashMap::new(), log_evals: false, delay_us: 0 }
+        TestLogp { kind, dim, evals: 0, faults: HashMap::new(), log_evals: false, delay_us: 0, announce: None }
     }
 
     pub fn eval(&self, x: &[f64], g: &mut [f64]) -> f64 {
@@ -212,6 +214,11 @@ impl CpuLogpFunc for TestLogp {
             }
             if res.is_ok() {
                 res = Ok(lp);
+            }
+        }
+        if let (Some(chain), Err(e)) = (self.announce, &res) {
+            if !e.recoverable {
+                nuts_rs::verif::emit("sampler", || json!({"ev": "fatal_fired", "i": chain, "k": k}));
             }
         }
         if self.log_evals {
